@@ -60,7 +60,8 @@ def node_opts(explicit_ids: bool = True, kinds: bool = False, meta: bool = False
     """Strategy for per-node opts; most nodes get none."""
     fields = {}
     if explicit_ids:
-        fields["id"] = st.one_of(st.sampled_from(["X1", "X2", "X3"]), st.integers(1000, 1003))
+        # 0 is a legal (falsy) explicit id
+        fields["id"] = st.one_of(st.sampled_from(["X1", "X2", "X3"]), st.integers(1000, 1003), st.sampled_from([0, 1000, "X1"]))
     if kinds:
         fields["kind"] = st.sampled_from(KINDS)
     if meta:
